@@ -104,7 +104,7 @@ class Replayer:
         self.st = bm.StrTab()
         self.conn = beanquery.Connection()
         self.asts = {}
-        self.counts = {'nested': 0, 'materialised': 0, 'in_materialised': 0, 'text_route': 0, 'unjudged_known': 0}
+        self.counts = {'nested': 0, 'materialised': 0, 'in_materialised': 0, 'text_route': 0}
         self.features = {}
         self.unclean = False
 
@@ -119,9 +119,6 @@ class Replayer:
         return bm.run_raw(self.conn, self.ast(q))
 
     def violation(self, key, clause, case, ds, expected, observed, text):
-        if not key.startswith(KNOWN_PREFIX) and self.unclean:
-            # a materialised form of a statement on which the listed defect is at work
-            key = '%s:materialised-form' % KNOWN_PREFIX
         self.ctx.violation(key, clause, {'kind': 's2c', 'dataset': ds, 'text': text, 'q': case['q'], 'res': case['res'],
                                          'shipped': case['shipped'], 'cfail': case['cfail'], 'clean': case['clean'], 'tabs': self.tabs},
                            'S2C', expected, observed)
@@ -134,14 +131,12 @@ class Replayer:
         self.counts['nested'] += 1
         for f in bm.features(q):
             self.features[f] = self.features.get(f, 0) + 1
-        # `clean` (from TLC): the walk as shipped uses every SELECT's own table for this statement.  On the other
-        # statements the listed defect is at work somewhere (possibly masked in the nested form by luck): a mismatch
-        # there is attributed to it (and counted as exactly-as-modelled when the shipped mechanism predicts it).
-        self.unclean = not case['clean']
+        # A mismatch that is exactly what the mechanism as shipped before 70ead89 (a nested SELECT leaves its table
+        # behind, TLC's `shipped` prediction) produces is reported under the key of that defect, anything else as a
+        # plain mismatch of the nested form.
         if not bm.same(obs, res):
-            if self.unclean and symptom(obs) in ('wrong-rows', 'compile-error', 'runtime-error'):
-                self.counts['unjudged_known'] += 1
-                self.counts['known_as_modelled'] = self.counts.get('known_as_modelled', 0) + bool(explained_by_shipped(obs, case))
+            if not case['clean'] and explained_by_shipped(obs, case) and symptom(obs) in ('wrong-rows', 'compile-error', 'runtime-error'):
+                self.counts['as_shipped_mechanism'] = self.counts.get('as_shipped_mechanism', 0) + 1
                 self.violation('%s:%s' % (KNOWN_PREFIX, symptom(obs)),
                                'outer SELECT uses the table left behind by a nested SELECT (%s)' % where_in(q),
                                case, ds, res, obs, text)
@@ -251,7 +246,7 @@ def s2c(ctx):
               'in-target', 'notin-target', 'in-where', 'notin-where'):
         if not rep.features.get(f):
             raise MachineryError('vacuity: no replayed statement has feature %s' % f)
-    if not rep.counts['materialised'] and not rep.counts['unjudged_known']:
+    if not rep.counts['materialised'] or not rep.counts['in_materialised']:
         raise MachineryError('vacuity: no materialised form was run')
 
 
@@ -692,9 +687,7 @@ def validate(ctx, path, nlines, what):
             d2 = [p for p in r2.printed if isinstance(p, dict) and p.get('verdict') == 'done']
             if len(d2) != 1 or d2[0]['lines'] != len(qlines) + 1 or len(cls) != len(qlines):
                 raise MachineryError('classification trace not consumed')
-            known = {i for i, p in cls.items() if not p['clean']}
-            as_modelled = sum(1 for i, p in cls.items() if not p['clean'] and p['same'])
-            ctx.leg('C2S', known_as_modelled=as_modelled)
+            known = {i for i, p in cls.items() if not p['clean'] and p['same']}
     nknown_family = 0
     for rj in rejected:
         ev = json.loads(lines[rj['line'] - 1])
